@@ -176,7 +176,21 @@ func (sig EcdsaSignature) Marshal() []byte {
 	return ret
 }
 
-// Pack an ECDSA signature by concatenating the two numbers per IEEE 1363
+// Pack an ECDSA signature for the given curve by concatenating the two numbers
+// per IEEE 1363. Each number is left-padded to the byte length of the curve
+// order so that the result has the same size for every signature made with
+// that curve.
+func (sig EcdsaSignature) PackCurve(curve elliptic.Curve) []byte {
+	nbytes := (curve.Params().N.BitLen() + 7) / 8
+	ret := make([]byte, 2*nbytes)
+	sig.R.FillBytes(ret[0:nbytes])
+	sig.S.FillBytes(ret[nbytes:])
+	return ret
+}
+
+// Pack an ECDSA signature by concatenating the two numbers per IEEE 1363.
+// The width is only as large as the bigger of the two numbers requires; use
+// PackCurve to get the fixed-width encoding that XML-DSig and JWS call for.
 func (sig EcdsaSignature) Pack() []byte {
 	// allocate space to hold both numbers
 	nbits := sig.R.BitLen()
